@@ -40,6 +40,7 @@ def cases(tier):
     for s in SIGMAS:
         yield {"kind": "triples", "sigma": s}
     yield {"kind": "noise"}
+    yield {"kind": "sigma-types"}
     for n in ((6, 9, 14) if tier == "quick" else (6, 7, 9, 14, 25, 40)):
         for k in range(3):
             yield {"kind": "medium", "n": n, "k": k}
@@ -72,6 +73,14 @@ def run_case(case, ctx):
 
     if case["kind"] == "triples":
         return triples(case, ctx)
+    if case["kind"] == "sigma-types":
+        # the kernel width given as a NumPy scalar of a narrow type (8 * sigma must not be formed in int8 ...)
+        F, G = [[0.0, 2.0], [1.0, 3.0]], [[0.5, 2.5], [3.0, 4.0], [0.0, 1.0]]
+        for sg in (np.int8(16), np.int8(100), np.uint8(40), np.int16(5000), np.float32(0.5), np.float16(2.0), 3, np.int64(7)):
+            ctx.state(("sigma-type", repr(sg)))
+            check_val(ctx, "value-sigma-type", ctx.call(persim.heat, farr(F), farr(G), sigma=sg), F, G, float(sg), "sigma given as %r" % (sg,))
+        ctx.nontriv("sigma_as_numpy_scalar")
+        return
     if case["kind"] == "noise":
         # points of tiny persistence ("noise" next to the diagonal) and very wide kernels: every pair term is a
         # small difference of two nearly equal exponentials - the regime where series shortcuts go wrong
